@@ -317,6 +317,71 @@ pub fn relayout(src: &str, rng: &mut Rng) -> String {
     out
 }
 
+/// comments added at line ends (`// c`, `/* c */`) and on lines of their own, outside strings and
+/// existing comments: wherever a line break already is, so that only comments change
+pub fn recomment(src: &str, rng: &mut Rng) -> String {
+    let mut out = String::new();
+    let chars: Vec<char> = src.chars().collect();
+    let mut in_line_comment = false;
+    let mut in_block_comment = false;
+    let mut in_string = false;
+    let mut i = 0;
+    if rng.chance(1, 2) {
+        out.push_str("// leading comment\n");
+    }
+    while i < chars.len() {
+        let c = chars[i];
+        if c == '\n' && !in_string && !in_block_comment {
+            if !in_line_comment && rng.chance(1, 2) {
+                out.push_str(match rng.below(4) {
+                    0 => " // c",
+                    1 => " /* c */",
+                    2 => "// c",
+                    _ => " /* a */ /* b */",
+                });
+            }
+            in_line_comment = false;
+            out.push(c);
+            if rng.chance(1, 8) {
+                out.push_str("// a line of its own\n");
+            }
+            i += 1;
+            continue;
+        }
+        out.push(c);
+        if in_line_comment {
+            i += 1;
+            continue;
+        }
+        if in_block_comment {
+            if c == '*' && chars.get(i + 1) == Some(&'/') {
+                out.push('/');
+                in_block_comment = false;
+                i += 2;
+                continue;
+            }
+            i += 1;
+            continue;
+        }
+        if in_string {
+            if c == '"' {
+                in_string = false;
+            }
+            i += 1;
+            continue;
+        }
+        if c == '"' {
+            in_string = true;
+        } else if c == '/' && chars.get(i + 1) == Some(&'/') {
+            in_line_comment = true;
+        } else if c == '/' && chars.get(i + 1) == Some(&'*') {
+            in_block_comment = true;
+        }
+        i += 1;
+    }
+    out
+}
+
 // ------------------------------------------------------------------ oracle
 
 pub struct Checked {
@@ -413,7 +478,7 @@ pub fn meta(args: &Args) -> Value {
     })
 }
 
-const TRANSFORMS: [&str; 6] = ["rename-fresh", "rename-compiler-like", "rename-case", "annotate", "parens", "layout"];
+const TRANSFORMS: [&str; 7] = ["rename-fresh", "rename-compiler-like", "rename-case", "annotate", "parens", "layout", "comments"];
 
 /// Hand-built pairs for transformation classes the G-AST transformations cannot express:
 /// (A) a local binder renamed to the name of a function that is visible where its initialiser
@@ -451,6 +516,36 @@ pub fn extra_pairs() -> Vec<MCase> {
             push(&format!("rename-local-to-visible-function/{itag}/{btag}"), a, b);
         }
     }
+    // ---- (C) the same function name at two or three levels of nested modules: renaming the definition at
+    // one level (and the references that denote it) leaves every unqualified reference with its meaning
+    let levels = [("x * 0.5", "OUTER"), ("x + 100.0", "MID"), ("x * 7.0 + 1.0", "INNER")];
+    for depth in 2..=3usize {
+        for renamed in 0..depth {
+            for from in 0..depth {
+                // level k defines gain_k (all called `gain` in the original) and run_k() { gain(4.0) }
+                let mk = |name_at: &dyn Fn(usize) -> String| {
+                    let mut src = String::new();
+                    for k in 0..depth {
+                        let ind = "  ".repeat(k);
+                        src.push_str(&format!("{ind}pub mod m{k} {{\n"));
+                        src.push_str(&format!("{ind}  pub fn {}(x){{ {} }}\n", name_at(k), levels[k].0));
+                        // an unqualified reference denotes the innermost enclosing definition
+                        src.push_str(&format!("{ind}  pub fn run{k}(x){{ {}(x) }}\n", name_at(k)));
+                    }
+                    for k in (0..depth).rev() {
+                        src.push_str(&format!("{}}}\n", "  ".repeat(k)));
+                    }
+                    let path: Vec<String> = (0..=from).map(|k| format!("m{k}")).collect();
+                    src.push_str(&format!("fn dsp(){{\n  {}::run{from}(4.0)\n}}\n", path.join("::")));
+                    src
+                };
+                let a = mk(&|_k| "gain".to_string());
+                let b = mk(&|k| if k == renamed { "boost".to_string() } else { "gain".to_string() });
+                push(&format!("rename-one-of-same-named-functions-in-nested-modules/depth{depth}/renamed-level{renamed}/called-level{from}"), a, b);
+            }
+        }
+    }
+    let _ = levels;
     // ---- (B)
     let ops: [(&str, &str); 6] = [
         ("field-read", "  r.F1 + r.F2 * 10.0 + r.F3 * 100.0\n"),
@@ -507,11 +602,12 @@ pub fn run(args: &Args, out: &mut Out) {
                 if args.q(&format!("corpus:{name}")) {
                     return None;
                 }
-                let t = relayout(&src, rng);
+                let comments = rng.chance(1, 2);
+                let t = if comments { recomment(&src, rng) } else { relayout(&src, rng) };
                 return Some(MCase {
                     original: src,
                     transformed: t,
-                    transformation: "layout".into(),
+                    transformation: if comments { "comments".into() } else { "layout".into() },
                     n: 8,
                     input_seed: rng.next(),
                     path: Some(f.to_string_lossy().to_string()),
@@ -528,6 +624,7 @@ pub fn run(args: &Args, out: &mut Out) {
                 "rename-case" => rename(&prog, rng, 2).print(),
                 "annotate" => annotate(&prog).print(),
                 "parens" => prog.print_with(Some(rng.next() | 1)),
+                "comments" => recomment(&original, rng),
                 _ => relayout(&original, rng),
             };
             Some(MCase { original, transformed, transformation: which.into(), n: *rng.pick(&[8usize, 24]), input_seed: rng.next(), path: None, scheduler: false })
